@@ -534,6 +534,34 @@ StepConc ==
                 \cup (IF ~blocked /\ ~NoDangling(log) THEN T("C10", "orphan_record") ELSE {})
           /\ alive' = (alive /\ ~blocked /\ ~aborted)
 
+\* End-to-end tier (real teosd binary): the chain events one poll delivered are observed as a whole (the durable state is read
+\* from the SQLite file once last_known_block has moved; memory is not observable: frozen).  chain = <<"disc"|"conn", blk>>*.
+StepChain ==
+    /\ Ev.act = "Chain"
+    /\ LET orc == OrcOf(Ev.rpc)
+           after == ApplyChain(st, Ev.chain, 1, orc)
+           exp == WithFlag(Out(IF Len(Ev.chain) = 0 THEN PollCommonF(after) ELSE PollOkF(after, Ev.tip), Reply("ok"), {}), Ev.rpc)
+           log == LogOr(Ev, exp.st, exp.st.wCache, exp.st.rIndex)
+           keys == UNION {ToSetOf(Ev.chain[i][2].keys) : i \in 1..Len(Ev.chain)}
+       IN /\ st' = log
+          /\ g' = [g EXCEPT !.seen = @ \cup keys,
+                            !.nodeHas = @ \cup keys \cup {tx \in 0..MAXTX : orc[tx] \in {"ok", "mem", "res"}},
+                            !.granted = {x \in @ : HasUser(log.users, x[1])},
+                            !.chain = LET conn == {BlkOf(Ev.chain[i][2]) : i \in {j \in 1..Len(Ev.chain) : Ev.chain[j][1] = "conn"}}
+                                          disc == {Ev.chain[i][2].h : i \in {j \in 1..Len(Ev.chain) : Ev.chain[j][1] = "disc"}}
+                                      IN {b \in @ : b.h \notin disc /\ \A c \in conn : c.h # b.h} \cup conn]
+          /\ tags' = tags
+                \cup AbortTags("", Ev.abort, "C11")
+                \cup (IF Ev.abort = ""
+                      THEN (IF exp.st.users # log.users THEN T("C07", "e2e.users") \cup T("C09", "e2e.users") ELSE {})
+                           \cup (IF exp.st.appts # log.appts THEN T("C01", "e2e.appointments") \cup T("C02", "e2e.appointments") ELSE {})
+                           \cup (IF ProjT(exp.st.trackers) # ProjT(log.trackers) THEN T("C01", "e2e.trackers") \cup T("C04", "e2e.trackers") \cup T("C02", "e2e.trackers") ELSE {})
+                           \cup (IF exp.st.lastKnown # log.lastKnown THEN T("C03", "e2e.last_known") ELSE {})
+                           \cup ConservationTags(g.granted, log)
+                           \cup (IF ~NoDangling(log) THEN T("C03", "dangling") ELSE {})
+                      ELSE {})
+          /\ alive' = (alive /\ Ev.abort = "")
+
 \* the rig went back to a checkpoint (database file and node state) to try another schedule
 StepRestore ==
     /\ Ev.act = "Restore"
@@ -557,7 +585,7 @@ Next ==
     /\ l <= Len(Rec)
     /\ l' = l + 1
     /\ \/ StepInit \/ StepBoot \/ StepRegister \/ StepAdd \/ StepGet \/ StepSub
-       \/ StepGkConnect \/ StepWConnect \/ StepRConnect \/ StepDisc \/ StepPollEnd \/ StepNote \/ StepRefFinal \/ StepFlag \/ StepHung \/ StepDied \/ StepConc \/ StepRestore \/ StepEnd
+       \/ StepGkConnect \/ StepWConnect \/ StepRConnect \/ StepDisc \/ StepPollEnd \/ StepNote \/ StepRefFinal \/ StepFlag \/ StepHung \/ StepDied \/ StepConc \/ StepRestore \/ StepChain \/ StepEnd
 
 Spec == Init /\ [][Next]_vars
 =============================================================================
